@@ -30,6 +30,90 @@ func checkC11(c *fw.Ctx) {
 	checkMainlineIndex(c)
 	checkLineariseDedup(c)
 	checkMemoKeys(c)
+	checkSingleSlots(c)
+}
+
+// checkSingleSlots ("9 single-slots"): the resolvers keep the create, power-levels and join-rules
+// events in one slot each; every other (type, state_key) pair has its own entry in a map. A slot
+// may therefore be filled only by the event of that type whose state key is empty: an
+// m.room.join_rules event with state key "legacy" that lands in the slot replaces - or is
+// replaced by - the real one depending on the order of application, and the agreed entry
+// (m.room.join_rules, "") disappears from the result. Judged where a routine classifies an event
+// by its type (the path condition of the store mentions Type()): every path to the store must
+// carry a positive test that the state key is empty.
+func checkSingleSlots(c *fw.Ctx) {
+	rule := "9 single-slots"
+	n := 0
+	for _, fn := range c.P.SrcFuncs() {
+		var conds map[*ssa.BasicBlock]fw.DNF
+		for _, b := range fn.Blocks {
+			for _, ins := range b.Instrs {
+				st, ok := ins.(*ssa.Store)
+				if !ok {
+					continue
+				}
+				fa, isFa := st.Addr.(*ssa.FieldAddr)
+				if !isFa {
+					continue
+				}
+				sty := derefStructOf(fa.X.Type())
+				if sty == nil {
+					continue
+				}
+				field := sty.Field(fa.Field).Name()
+				if field != "resolvedCreate" && field != "resolvedPowerLevels" && field != "resolvedJoinRules" {
+					continue
+				}
+				if k, isC := st.Val.(*ssa.Const); isC && k.Value == nil {
+					continue // a removal
+				}
+				if conds == nil {
+					var okc bool
+					conds, okc = fw.PathConds(fn)
+					if !okc {
+						conds = map[*ssa.BasicBlock]fw.DNF{}
+					}
+				}
+				d, have := conds[b]
+				if !have || len(d) == 0 {
+					continue
+				}
+				typed := false
+				for _, term := range d {
+					for _, l := range term {
+						if strings.Contains(l.Atom, ".Type(") {
+							typed = true
+						}
+					}
+				}
+				if !typed {
+					continue // not a classification of an event by its type (an initialiser, a copy)
+				}
+				n++
+				construct := fw.FuncName(fn) + ": the slot " + field + " is filled only by an event with an empty state key"
+				bad := ""
+				for _, term := range d {
+					okTerm := false
+					for _, l := range term {
+						a := l.Atom
+						emptyTest := strings.Contains(a, `""`) && (strings.Contains(a, "StateKey") || strings.Contains(a, "stateKey") || strings.Contains(a, "state_key"))
+						if emptyTest && l.Pos && (strings.Contains(a, "==") || strings.Contains(a, "StateKeyEquals(")) {
+							okTerm = true
+						}
+					}
+					if !okTerm {
+						bad = fw.DNF{term}.String()
+					}
+				}
+				if bad == "" {
+					c.Ok(rule, construct, c.P.Pos(fw.InstrPos(st)), "")
+				} else {
+					c.Fail(rule, construct, c.P.Pos(fw.InstrPos(st)), "the slot is written under ["+bad+"], which does not require the state key to be empty: an event of that type with another state key takes the place of (or is replaced by) the room's real "+strings.TrimPrefix(field, "resolved")+" event, so the resolved state loses an agreed entry and depends on the order of application")
+				}
+			}
+		}
+	}
+	c.Min(rule+" classified slot stores", n, 6)
 }
 
 // checkMainlineIndex: powerLevelMainlinePos is both the position table and the "is on the
